@@ -13,6 +13,9 @@ import (
 // IndexFiles lists the derived index files currently on the memfs (sorted).
 func (m *Machine) IndexFiles() []string {
 	var out []string
+	if m.FS == nil {
+		return nil // free-running -race pass on the real file system: index files are left alone
+	}
 	for _, p := range m.FS.Paths() {
 		if strings.HasSuffix(p, ".idx.hash") || strings.HasSuffix(p, ".idx.s") || strings.HasSuffix(p, ".idx.m") {
 			out = append(out, p)
